@@ -200,6 +200,37 @@ def pipeline_checks(p, name, c, spec):
                     "same = whole==seq and circ.netlist_of(whole)==circ.netlist_of(seq)\nprint(same)\nsys.exit(0 if same else 1)\n")
 
 
+TWICE_SRC = """
+def same_object_twice(c, first, middle):
+    # a pipeline that lists one transformer *object* twice must equal sequencing with fresh objects
+    from cirbo.core.circuit.transformer import Transformer
+    from cirbo.minimization.simplification import MergeDuplicateGates as MD, MergeEquivalentGates as ME, MergeUnaryOperators as MU, RemoveRedundantGates as RRG
+    mk = {'MD': MD, 'ME': ME, 'MU': MU, 'RRG': RRG}
+    obj = mk[first]()
+    whole = Transformer.apply_transformers(c, [obj, mk[middle](), obj])
+    seq = mk[first]().transform(mk[middle]().transform(mk[first]().transform(c)))
+    return whole, seq
+"""
+exec(TWICE_SRC)  # noqa: S102
+
+
+def twice_checks(p, name, c):
+    for first, middle in (("MD", "MU"), ("MD", "RRG"), ("MU", "MD"), ("RRG", "MU"), ("ME", "MU")):
+        if first == "ME" and len(c.inputs) > 6:
+            continue
+        p.case(("twice", circ.snapshot(c)[:3], first, middle))
+        try:
+            whole, seq = same_object_twice(c, first, middle)  # noqa: F821
+            bad = None if same_circuit(whole, seq) else f"gives {circ.describe(whole)} but fresh objects in sequence give {circ.describe(seq)}"
+        except Exception as e:  # noqa: BLE001
+            bad = f"raised {type(e).__name__}: {e}"
+        if bad:
+            p.violation(f"pipeline:same-object-twice:{first}", f"[{first}, {middle}, the same {first} object] on {circ.describe(c)} {bad}",
+                        REPLAY_PRELUDE + circ.circ_src(c) + TWICE_SRC + f"\ntry:\n    whole, seq = same_object_twice(c, {first!r}, {middle!r})\n"
+                        "    same = whole==seq and circ.netlist_of(whole)==circ.netlist_of(seq)\nexcept Exception as e:\n    print(type(e).__name__, e); same=False\nprint(same)\nsys.exit(0 if same else 1)\n")
+            return
+
+
 def canaries(p):
     """Vacuity guards: the effect predicates must flag the *untransformed* feature circuits."""
     fam = dict(circgen.feature_circuits())
@@ -232,6 +263,7 @@ def unit(p, item, tier, seed):
         fam = [x for x in fam if x[0].startswith("seeded")]
     for name, c in fam:
         effect_checks(p, name, c)
+        twice_checks(p, name, c)
         for spec in rnd.sample(specs, min(len(specs), 8 if tier == "quick" else 25)):
             if ("ME()" in spec or spec == "cleanup(True)") and len(c.inputs) > 6:
                 continue
